@@ -328,6 +328,11 @@ package ocimem
 // pushed under its digest)
 //@   ensures[nested-manifests-are-read-as-they-are-referenced] ncallsOf("manifestReferences") <= 1 &&
 //@     (ncallsOf("manifestReferences") == 1 ==> calls[lastOf("manifestReferences")].arg.0 == info.desc.MediaType)
+// (fail closed: a nested manifest that cannot be decoded ends the search with
+// that error - it is never taken for "refers to nothing", which would let a
+// delete in immutable-tags mode go ahead)
+//@   ensures[an-undecodable-nested-manifest-is-an-error] ncallsOf("manifestReferences") == 1 &&
+//@     calls[lastOf("manifestReferences")].result.1 != nil ==> !result && retErr == calls[lastOf("manifestReferences")].result.1
 
 // (trusted: the table manifestIterators holds functions that return a
 // non-nil iterator or an error)
